@@ -134,3 +134,47 @@ def generate(repo):
     lines.append("(* Channel.send_stderr: extended data type code *)")
     lines.append("Definition ext_stderr_code : Z := %d." % _ext_code(cls))
     return {"C22_gen.v": "\n".join(lines) + "\n"}
+
+
+def sender_api(repo):
+    """For the released-channel sweep of harness/c22.py (not a Coq file): the public methods of
+    paramiko.channel.Channel from which a `transport._send_user_message(...)` call is reachable through
+    `self.<method>(...)` calls, each with a flag: decorated with @open_only in THIS tree.  Fail-closed."""
+    tree = _parse(os.path.join(repo, "paramiko", "channel.py"))
+    cls = None
+    for st in tree.body:
+        if isinstance(st, ast.ClassDef) and st.name == "Channel":
+            cls = st
+    if cls is None:
+        raise Unrecognised("class Channel not found")
+    methods = {st.name: st for st in cls.body if isinstance(st, ast.FunctionDef)}
+    direct, calls, decorated = set(), {}, {}
+    for name, fn in methods.items():
+        calls[name] = set()
+        for node in ast.walk(fn):
+            if isinstance(node, ast.Call) and isinstance(node.func, ast.Attribute):
+                if node.func.attr == "_send_user_message":
+                    direct.add(name)
+                if isinstance(node.func.value, ast.Name) and node.func.value.id == "self" \
+                        and node.func.attr in methods:
+                    calls[name].add(node.func.attr)
+        decs = []
+        for d in fn.decorator_list:
+            if isinstance(d, ast.Name):
+                decs.append(d.id)
+            elif isinstance(d, ast.Attribute):
+                decs.append(d.attr)
+            else:
+                raise Unrecognised("decorator of Channel.%s has an unexpected shape" % name)
+        decorated[name] = "open_only" in decs
+    if not direct:
+        raise Unrecognised("no method of Channel calls _send_user_message")
+    senders = set(direct)
+    changed = True
+    while changed:
+        changed = False
+        for name in methods:
+            if name not in senders and calls[name] & senders:
+                senders.add(name)
+                changed = True
+    return sorted((n, decorated[n]) for n in senders if not n.startswith("_"))
